@@ -56,6 +56,8 @@ CLAIMED.update({
              note=SRV_NOTE + " Covered: threadless server + threaded client (as fiber). Not covered: threaded server stop/restart accounting.", technique="Lean 4 proof (event laws) + differential correspondence + lifecycle oracles", design="6 C18"),
  "C09": dict(text="Lean theorems on the decision functions of both slaves, for every ASDU octet string, handler set and handler result: wrong_cot (exactly one mirror with 45), callback_once (allowed cause, complete object, CS104 address zero: exactly one callback with the decoded argument), nonzero_ioa (47), truncated_no_callback, unhandled_gets_44, handled_stops, negative_mirrors + negative_cause (response = request with only the cause octet rewritten). Tie: near-exhaustive differential (type x COT x flags x IOA x truncation x handler subsets) on both real handleASDU functions under ASan + 'at most one response' oracle. Two genuine defects repaired (CS101 double response, CS104 C_TS_TA_1).",
              note="Trusted: Lean kernel + standard axioms; hand-written decision model Iec.Dispatch tied by the differential of this check; decoder = Iec.Asdu.getElement (C01/C02). Partial: client command builders not modelled.", technique="Lean 4 proof (case analysis of the decision table) + exhaustive differential", design="6 C09"),
+ "C16": dict(text="Partial. Lean (every operation sequence): never_exceeds_size, holds_exactly_size, full_displaces_oldest, not_full_appends, dequeue_is_fifo, fifo_through for the CS101 queues (class 1, class 2, master user data). Tie: differential on the real CS101_Queue with the ring dumped oldest-first after every operation. End-to-end exactly-once / FIFO-per-class / commands-exactly-once / failure-reported / recovery: model-free oracle on the real master + 1..3 slaves (and balanced pairs) over a lossy simulated line with scripted single and double losses, random loss up to 30 %, outages and bit damage, virtual time; supported by the C15 transition theorems.",
+             note="Trusted: Lean kernel + standard axioms; abstract queue model tied by ring dump. NOT proved: delivery of the composed system over a lossy channel (no composed-system theorem); the e2e oracle is a search, not a proof - stated in DESIGN.md.", technique="Lean 4 proof (queue discipline by induction over operation sequences) + differential + end-to-end oracle", design="6 C16"),
  "C17": dict(text="Partial (races not decided). Regenerated model: translate/locks.py turns every function of the six lock-using files into a lock skeleton (clang AST) on every run. Lean: exec_sound (the collecting interpreter covers every outcome of the path semantics Run, all branch outcomes and loop trip counts) => every_path_releases_what_it_took, no_path_faults for all generated skeletons (kernel evaluation); internal_lock_order_acyclic (rank certificate over held->waited edges through calls and thread joins); callbacks_outside_locks_partial (application callbacks are entered lock-free except at three recorded sites = known findings, reproduced on the real code). Failing-input search: threaded server/client under PRNG schedules behind the simulated HAL with semaphore monitors. Two genuine defects repaired (STOPDT double post; listener joining under openConnectionsLock).",
              note="Trusted: Lean kernel + standard axioms; translate/locks.py (syntax transcription); lock classes by static type+field; raw-message hook assumed not to re-enter the API. NOT decided: data-race freedom (no lockset model) - stated in DESIGN.md.", technique="Lean 4 proof (abstract-interpretation soundness + kernel evaluation on a model regenerated from source) + schedule search on the real code", design="6 C17"),
  "C14": dict(text="Lean: every_tx_wellformed (every frame any role of the model writes is a well-formed FT 1.2 frame: the observation type carries the evidence, built by fixedFrame_wf / varFrame_wf / single_wf for all address widths 0..2, control octets, addresses, data), sendFixed_width / sendVar_width, varFrame_shape; receiving: secHeader_ok_sound (unbalanced slave: passes only with equal length octets, true length, correct checksum, own address or FC4 broadcast), secU_reject_is_silent (otherwise no transmission, no callback, no state but the link-state notification), parseBP_some_sound + *_drop_is_silent (balanced / master), var_roundtrip (user data extracted = user data encoded, any previous buffer content). Tie: differential of the real link_layer.c + serial_transceiver_ft_1_2.c over the simulated serial port vs Iec.Link101 incl. the 261-octet shared buffer, with corrupted / truncated / random frames; model-free frame-format oracle.",
